@@ -334,6 +334,37 @@ class Sym:
                             env[x] = ("havoc", x, b)
                             for kk in [y for y in env if isinstance(y, tuple) and len(y) == 2 and y[0] == x and isinstance(y[1], tuple)]:
                                 del env[kk]
+                # std::mem::replace(&mut place, v) / take(&mut place): yields what the place held and
+                # stores v (the default) there
+                if key in ("std::mem::replace", "std::mem::take") and args:
+                    pl0 = op_place(t["args"][0])
+                    target = None
+                    if pl0 is not None and not pl0[1]:
+                        cur = pl0[0]
+                        for _ in range(4):
+                            found = None
+                            for st_ in reversed(blk["st"]):
+                                if st_["k"] == "A" and st_["p"] == [cur, []] and st_["r"]["k"] == "ref":
+                                    found = st_["r"]["p"]
+                                    break
+                            if found is None:
+                                break
+                            if found[1] == ["*"]:
+                                cur = found[0]
+                                continue
+                            target = found
+                            break
+                    if target is not None:
+                        val = args[0]
+                        new_val = args[1] if key == "std::mem::replace" and len(args) > 1 else ("default",)
+                        env = dict(env)
+                        if target[1]:
+                            env[(target[0], _pkey(target[1]))] = new_val
+                            events = events[:-1] + [("call", key, args, val, b, span_line(t["s"]), cal), ("write", self._place_expr(env, target), new_val, b, span_line(t["s"]))]
+                        elif target[0] not in self.stateful_locals:
+                            env[target[0]] = new_val
+                            if fn.local_name(target[0]):
+                                events = events + [("set", target[0], fn.local_name(target[0]), new_val, b, span_line(t["s"]))]
                 if t.get("t") is None:
                     self._finish(conds, events, ("diverge", b), blocks)
                     return
